@@ -16,6 +16,9 @@ def x_obligations(tier):
                          bound="5 entities (3 with data) in the memfs model; get twice: first call fixed, second call's attribute list (3) and sid_encode (3) chosen by the solver; compared with FindInPaths.find"))
         if tier == "thorough" or si in (0, 1, 4, 6, 8):
             o.append(Obl(f"C16-all[{s}]", M, "all_vs_find", env={"VF_SI": str(si)}, timeout=T, path_timeout=200, family="C16-all", bound="GetFromAll vs FindInAll, attribute list and encoder chosen by the solver"))
+    for si in (0, 2):
+        o.append(Obl(f"C16-all[{SEARCHES[si]},after get_next]", M, "all_vs_find", env={"VF_SI": str(si), "VF_PRELUDE": "1", "VF_CACHES": "1"}, timeout=T, path_timeout=200, family="C16-all",
+                     bound="as C16-all, after Sid.get_next('version') asked the data configuration for an attribute-specific Getter (spil's caches ON)"))
     # a Getter of the NON-default path configuration reads that configuration's tree
     for si in (0, 4, 7):
         o.append(Obl(f"C16-get[{SEARCHES[si]},server]", M, "get_vs_find", env={"VF_SI": str(si), "VF_A1": "0", "VF_E1": "0", "VF_CONFIG": "server"}, timeout=T, path_timeout=200, family="C16-get",
